@@ -297,6 +297,51 @@ macro_rules! ubin {
     }};
 }
 
+/// `x.mul_add(a, b)` in the user system with the three operands in (possibly) different base-unit sets:
+/// `Extent · Pace + (Extent·Pace)`; every assignment of {default, alt} to (x, a, b) that mixes the two
+macro_rules! umad {
+    ($cx:ident, $X:ident, $xn:expr, $A:ident, $an:expr, $B:ident, $bn:expr) => {{
+        type Dx = extent::Dimension;
+        type Da = pace::Dimension;
+        let _ = std::marker::PhantomData::<Dx>;
+        let x0 = $X::Extent { dimension: PhantomData, units: PhantomData, value: 1.0 };
+        let a0 = $A::Pace { dimension: PhantomData, units: PhantomData, value: 1.0 };
+        // the product type names the dimension of `b`
+        fn pows_of<D: Dimension + ?Sized, Us: Units<f64> + ?Sized>(_q: &Quantity<D, Us, f64>) -> (String, String) {
+            (join_hex(&upows::<D, d64u::Units, f64>()), join_hex(&upows::<D, a64::Units, f64>()))
+        }
+        let prod = x0 * a0;
+        let (pd_def, pd_alt) = pows_of(&prod);
+        let pick = |name: &str, d: &String, a: &String| if name == "usr-default" { d.clone() } else { a.clone() };
+        let pa_def = join_hex(&upows::<Da, d64u::Units, f64>());
+        let pa_alt = join_hex(&upows::<Da, a64::Units, f64>());
+        let lpa = pick($xn, &pa_def, &pa_alt);
+        let rpa = pick($an, &pa_def, &pa_alt);
+        let lpb = pick($xn, &pd_def, &pd_alt);
+        let rpb = pick($bn, &pd_def, &pd_alt);
+        let mut rng = Rng::new($cx.seed).fork(hash_str(concat!("umad", $xn, $an, $bn)));
+        let vals = float_values::<f64>(&mut rng, $cx.n, &[]);
+        for i in 0..vals.len() {
+            let (xv, av, bv) = (vals[i], vals[(i * 7 + 3) % vals.len()], vals[(i * 5 + 1) % vals.len()]);
+            let x = $X::Extent { dimension: PhantomData, units: PhantomData, value: xv };
+            let a = $A::Pace { dimension: PhantomData, units: PhantomData, value: av };
+            let zero_b = $B::Extent { dimension: PhantomData, units: PhantomData, value: 1.0 } * $B::Pace { dimension: PhantomData, units: PhantomData, value: bv };
+            let r = x.mul_add(a, zero_b);
+            writeln!($cx.out, "mad f64 usr.extent {} {} {} {} {} {} {} {} {} {} {}", $xn, $an, $bn, lpa, rpa, lpb, rpb,
+                xv.hex(), av.hex(), zero_b.value.hex(), r.value.hex()).unwrap();
+        }
+    }};
+}
+
+#[inline(never)]
+fn run_mad<W: Write>(cx: &mut Cx<W>) {
+    umad!(cx, d64, "usr-default", a64, "usr-alt", d64, "usr-default");
+    umad!(cx, d64, "usr-default", d64, "usr-default", a64, "usr-alt");
+    umad!(cx, a64, "usr-alt", d64, "usr-default", a64, "usr-alt");
+    umad!(cx, a64, "usr-alt", a64, "usr-alt", d64, "usr-default");
+    umad!(cx, d64, "usr-default", a64, "usr-alt", a64, "usr-alt");
+}
+
 #[inline(never)]
 fn run_bin<W: Write>(cx: &mut Cx<W>) {
     ubin!(cx, extent, Extent);
@@ -557,6 +602,7 @@ fn main() {
         if i == 0 {
             run_conv(&mut cx);
             run_bin(&mut cx);
+            run_mad(&mut cx);
             run_dim(&mut cx);
             run_text(&mut cx);
             run_added(&mut cx);
